@@ -307,6 +307,11 @@ func (s *sender) updateMaxPayloadSize(mtu, count int) {
 			// We found a segment exceeding the MTU. Rewind
 			// writeNext and try to retransmit it.
 			s.writeNext = seg
+			// It is sent again right now (in smaller pieces): the timer that
+			// was armed for the first transmission must not fire before a full
+			// RTO has passed since this one. sendData arms it again.
+			// 这些段马上会被重发，重传定时器要从这次发送重新计时
+			s.resendTimer.disable()
 			break
 		}
 	}
